@@ -42,7 +42,10 @@ func (t *Dense) T(axes ...int) (err error) {
 
 	// swap out the old and the new
 	t.old = t.AP
-	t.transposeWith = axes
+	// keep a private copy of the axes: transposeWith is handed to ReturnInts by UT and
+	// ReturnTensor, which must never receive a slice owned by the caller
+	t.transposeWith = BorrowInts(len(axes))
+	copy(t.transposeWith, axes)
 	t.AP = transform
 	return nil
 }
@@ -82,7 +85,8 @@ func (t *Dense) SafeT(axes ...int) (retVal *Dense, err error) {
 	retVal.oe = t.oe
 	retVal.AP = transform
 	t.AP.CloneTo(&retVal.old)
-	retVal.transposeWith = axes
+	retVal.transposeWith = BorrowInts(len(axes))
+	copy(retVal.transposeWith, axes)
 
 	return
 }
